@@ -45,6 +45,7 @@ type SemOpts struct {
 	Strict     bool // C15 clauses on printed numbers
 	IgnoreOut  bool // only the outcome class matters (C07)
 	SkipNatlog bool
+	SpliceMeta bool // FamPrint: records 1..3 splice the value of record 0 into strings; they must show the text print showed
 	Render     *RenderOpts
 }
 
@@ -65,6 +66,20 @@ func runtimeDiags(r *Result) []Event {
 		}
 	}
 	return o
+}
+
+// expectedOut is rec.Out, except for the splice records of FamPrint (see SpliceMeta).
+func expectedOut(rec *SemRec, actual string, o *SemOpts) []OutRec {
+	exp := rec.Out
+	if o != nil && o.SpliceMeta && strings.HasPrefix(rec.Cls, "num") && len(exp) >= 4 && exp[0].V.T == "num" {
+		// "the text + splices in is character for character what print shows": compare with the observed first line
+		if nl := strings.IndexByte(actual, '\n'); nl >= 0 {
+			l0 := actual[:nl]
+			exp = append([]OutRec(nil), rec.Out...)
+			exp[1].V.S, exp[2].V.S, exp[3].V.S = cpsOf(l0), cpsOf(l0), cpsOf("<"+l0+">")
+		}
+	}
+	return exp
 }
 
 // compareSem returns ("", "") if the observed behaviour is the prescribed one, otherwise a class and a detail.
@@ -133,7 +148,7 @@ func compareSem(rec *SemRec, r *Result, o *SemOpts) (string, string) {
 			return "after-error:output", fmt.Sprintf("%q written to stdout after the first diagnostic", clip(r.Out[first.Off:], 60))
 		}
 	}
-	if idx, what, detail := matchOut(rec.Out, r.Out, o.Strict); idx >= 0 {
+	if idx, what, detail := matchOut(expectedOut(rec, r.Out, o), r.Out, o.Strict); idx >= 0 {
 		return "out:" + what, fmt.Sprintf("output record %d: %s", idx, detail)
 	}
 	if (rec.Status == "error") != r.HadRT {
@@ -287,7 +302,7 @@ var reRuntimeLine = regexp.MustCompile(`(?m)^\[line (\d+)\]\s*$`)
 
 // compareSemCLI checks a whole-process run of the executable against the prescribed behaviour:
 // stdout bytes, exit status (0 / 70), diagnostics only on stderr, first diagnostic's line.
-func compareSemCLI(rec *SemRec, r *CLIRun) (string, string) {
+func compareSemCLI(rec *SemRec, r *CLIRun, o *SemOpts) (string, string) {
 	if r.Killed {
 		return "cli:no-termination", "the process did not finish within the time limit"
 	}
@@ -298,7 +313,7 @@ func compareSemCLI(rec *SemRec, r *CLIRun) (string, string) {
 	if rec.Status == "error" {
 		wantExit = 70
 	}
-	if idx, what, detail := matchOut(rec.Out, r.Out, false); idx >= 0 {
+	if idx, what, detail := matchOut(expectedOut(rec, r.Out, o), r.Out, false); idx >= 0 {
 		return "cli:out:" + what, fmt.Sprintf("output record %d: %s", idx, detail)
 	}
 	if r.Exit != wantExit {
@@ -339,7 +354,7 @@ func (c *Ctx) replaySemCLI(path string, o *SemOpts, every int, timeout time.Dura
 				f := filepath.Join(c.Work, fmt.Sprintf("cli_%d_%d.bn", w, i%4))
 				os.WriteFile(f, []byte(j.src), 0644)
 				r := c.runCLI([]string{f}, stdinText(j.rec.Stdin), timeout)
-				what, detail := compareSemCLI(j.rec, &r)
+				what, detail := compareSemCLI(j.rec, &r, o)
 				mu.Lock()
 				n++
 				if what != "" {
